@@ -262,6 +262,12 @@ theorem R2_setBlock_snd (H : Heap) (b c : Nat) (s : Block × Block) (a : Block) 
 @[simp] theorem size_R2 (H : Heap) (b c : Nat) (s : Block × Block) : (R2 H b c s).size = H.size := by
   unfold R2; simp
 
+/-- a read through a pointer into a block that is neither of the two replaced blocks sees the base heap (wherever the
+    read stands: in a loop body, or hoisted in front of the loop) -/
+theorem get_R2_other (H : Heap) (b c : Nat) (s : Block × Block) (p : Ptr) (j : Nat) (h1 : p.blk ≠ b) (h2 : p.blk ≠ c) :
+    get (R2 H b c s) p j = (H.block p.blk).getD (p.off + j) 0#64 := by
+  rw [get_def, R2_block_other _ _ _ _ _ h1 h2]
+
 end Heap
 end GoldilocksVerif
 
